@@ -29,11 +29,11 @@ func main() { vlib.Run("C14", run) }
 
 func run(c *vlib.Ctx) {
 	c.Rule("ancestor tree depth<=4 fan-out<=6 over 7 names and 4 file contents (identical files and identical sub-directories are frequent); a and b are each derived by 0-8 edits {add file, add dir, add copy of an existing subtree, remove, change file content, replace dir by file, replace file by dir, empty a dir} at random depths; strata: clean (file/non-empty-dir clashes repaired by renaming AND link names suffixed with their depth, so neither known trigger can occur), shared (clashes repaired, plain names: identical subtrees at different depths), kind (a clash forced), selfsim (2 names, 2 contents, deep: a directory often equals its own parent's previous state), same (a==b built twice); both directions a->b and b->a plus Diff(x,x); every change list is also replayed on a model of the Editor's temporary store to compute the class features; distinct = FNV of both trees; non-trivial = the diff has >=3 changes of >=2 types with one at depth>=2")
-	c.Cases("clean", c.N(1200, 20000), func(k *vlib.Case) { pairCase(k, "clean") })
-	c.Cases("shared", c.N(800, 12000), func(k *vlib.Case) { pairCase(k, "shared") })
-	c.Cases("kind", c.N(500, 8000), func(k *vlib.Case) { pairCase(k, "kind") })
-	c.Cases("selfsim", c.N(600, 8000), func(k *vlib.Case) { pairCase(k, "selfsim") })
-	c.Cases("same", c.N(100, 1000), func(k *vlib.Case) { pairCase(k, "same") })
+	c.Cases("clean", c.N(1200, 12000), func(k *vlib.Case) { pairCase(k, "clean") })
+	c.Cases("shared", c.N(800, 8000), func(k *vlib.Case) { pairCase(k, "shared") })
+	c.Cases("kind", c.N(500, 5000), func(k *vlib.Case) { pairCase(k, "kind") })
+	c.Cases("selfsim", c.N(600, 5000), func(k *vlib.Case) { pairCase(k, "selfsim") })
+	c.Cases("same", c.N(100, 500), func(k *vlib.Case) { pairCase(k, "same") })
 }
 
 // ---------------------------------------------------------------- tree model
@@ -687,6 +687,9 @@ func pairCase(k *vlib.Case, stratum string) {
 			k.C.Count("model_predicted_different_but_cid_equal", 1)
 		}
 		k.C.Count("applied_ok", 1)
+		if len(kc) > 0 {
+			k.C.Count("clash_but_applied_ok", 1) // would show that the class trigger is wider than the defect
+		}
 		if !complete(ctx, dserv, res.Cid()) {
 			k.C.Count("result_dag_incomplete_in_store", 1)
 		}
